@@ -3,6 +3,7 @@ package diodeh
 import (
 	"bytes"
 	"fmt"
+	"io"
 	"os"
 	"os/exec"
 	"strings"
@@ -23,9 +24,16 @@ func FatalChild() {
 	if mode == "poll" {
 		poll = 5 * time.Millisecond
 	}
-	dw := diode.NewWriter(os.Stdout, 64, poll, func(missed int) { fmt.Fprintf(os.Stderr, "missed %d\n", missed) })
+	var out io.Writer = os.Stdout
+	n := 5
+	if mode == "slow" {
+		// a destination that is alive but slow: draining what is in the ring takes about 1.5 s
+		out = slowStdout{}
+		n = 14
+	}
+	dw := diode.NewWriter(out, 64, poll, func(missed int) { fmt.Fprintf(os.Stderr, "missed %d\n", missed) })
 	l := zerolog.New(dw)
-	for i := 0; i < 5; i++ {
+	for i := 0; i < n; i++ {
 		l.Info().Int("i", i).Msg("before")
 	}
 	l.Fatal().Msg("fatal-last-words")
@@ -40,8 +48,11 @@ func fatalPath(c *hlib.Ctx) {
 		return
 	}
 	runs := 0
-	for _, mode := range []string{"wait", "poll"} {
+	for _, mode := range []string{"wait", "poll", "slow"} {
 		for i := 0; i < 3; i++ {
+			if mode == "slow" && i > 0 {
+				break
+			}
 			cmd := exec.Command(self)
 			cmd.Env = append(os.Environ(), "VERIF_C11_FATAL="+mode)
 			var out, errb bytes.Buffer
@@ -55,11 +66,22 @@ func fatalPath(c *hlib.Ctx) {
 			}
 			runs++
 			lines := strings.Count(out.String(), "\n")
-			if code != 1 || !strings.Contains(out.String(), "fatal-last-words") || lines != 6 {
-				c.Violate(hlib.Violation{Key: "fatal-loses-messages", Monitor: "fatal-path", Desc: "Logger.Fatal through a diode.Writer: the process must exit 1 after all 6 events reached the wrapped writer",
+			wantLines := 6
+			if mode == "slow" {
+				wantLines = 15
+			}
+			if code != 1 || !strings.Contains(out.String(), "fatal-last-words") || lines != wantLines {
+				c.Violate(hlib.Violation{Key: "fatal-loses-messages", Monitor: "fatal-path", Desc: fmt.Sprintf("Logger.Fatal through a diode.Writer: the process must exit 1 after all %d events reached the wrapped writer (mode slow: the destination takes 100 ms per write)", wantLines),
 					Case: map[string]interface{}{"mode": mode}, Observed: map[string]interface{}{"exit": code, "stdout": out.String(), "stderr": errb.String()}})
 			}
 		}
 	}
 	c.Res.ExtraCoverage["fatal_path_runs"] = runs
+}
+
+type slowStdout struct{}
+
+func (slowStdout) Write(p []byte) (int, error) {
+	time.Sleep(100 * time.Millisecond)
+	return os.Stdout.Write(p)
 }
